@@ -46,6 +46,7 @@ for pid, (ref, text, note) in sorted({**CHECKS, **{k: tuple(v) for k, v in EXTRA
         "quick_cmd": "./check %s --tier quick" % pid,
         "thorough_cmd": "./check %s --tier thorough" % pid,
         "evidence_file": "/verif/evidence/%s.json" % pid,
+        "replay_cmd_template": "./check %s --replay {path}" % pid,
         "engine": "kani-cbmc",
         "level_claimed": {"category": "model_checking", "text": text, "design_ref": ref},
         "level_note": note,
